@@ -1,11 +1,11 @@
 package rules
 
 import (
-	"sort"
 	"fmt"
 	"go/ast"
 	"go/token"
 	"go/types"
+	"sort"
 	"strings"
 
 	"gengoverif/checker/internal/cfgx"
@@ -14,7 +14,7 @@ import (
 
 func init() {
 	register(Property{
-		ID: "C04",
+		ID:          "C04",
 		Explanation: "Decided statically, exhaustively over the library: A2 every source of schedule-dependent order (range over a map, sync.Map.Range, reflect MapKeys/MapRange, maps.Keys/Values/All not directly under slices.Sorted, select, go statements, time, rand) is enumerated and must match an order-insensitive idiom that is verified structurally - I1 collect-then-sort (the loop only appends to a slice that is sorted before its first use on every path), I2 slices.Sorted(maps.Keys(m)), I3 only keyed stores/deletes whose key is the iteration key or the element itself, I4 flag loops (the only exits are under `key == <loop-invariant>`, all other assignments are constants), I5 per-element independent effects (calls whose operands derive from the element only, no loop-carried variable) - or a frozen exception with a written reason and a side condition that is itself checked on every run. An order source that matches nothing is 'undecided' and fails the check. R2 entrypoint order: in Load every store into the root-module / direct-package sets precedes every call of the registering closure (so 'local' never depends on which entrypoint came first), and the loops over the entrypoints only perform keyed stores. A2 accepts a sort only when it orders the elements by their own value (sort.Strings, slices.Sort/Sorted, the natural comparison spelled out): a custom comparator leaves ties in map order and keys such as token.Pos depend on the parse schedule. R3 own-output feedback - every method-set query (NumMethods/Method, NewMethodSet, LookupFieldOrMethod, Implements, MethodsOf) in a generator package is an obligation, because the generators add methods to the package they process and the next run type-checks the package with that output (one known finding: the deepcopy field helper). A2 also: every call evaluated inside a keyed-store loop over an unordered source must be order-free (no dynamic call, nothing concurrent, writes only to own locals, stateless library callees) - a keyed store is order-insensitive only if computing the stored value is. R4 package-level tags are merged over every file of the package (C06.R3), so the files a run adds do not change what the next run reads. R3 has one discharging idiom (ownOutputOverride): queries on one type variable in one loop bounded by the type's own methods, which only writes fields of one local record; an own-package flag defined once by the path comparison; every read of a scanned field after the loop is reached only through an overwrite that mentions neither a scanned field nor a query, or over an edge on which the flag is false or the type is an interface. R5/R6: the sums are recorded only by a complete run and written by nothing but Save (C02.R4/R5, C08.R2). NOT decided: that a second run changes nothing in general (generated files are themselves input of the next run and hashed into gengo.sum; R3 decides the one structural way a generator can see its own output, the method set); byte equality across process restarts beyond A2 (environmental inputs such as go list output are trusted).",
 		Assumptions: append([]string{"the go command / go/packages return the same package graph for the same module contents", "log output on stdout (ordered by time and generator order) is not part of the generated files"}, commonAssumptions...),
 		Run:         runC04,
@@ -369,8 +369,8 @@ var a2Exceptions = map[string]a2Exception{
 		return true, "C05 holds: units are independent"
 	}},
 	"pkg/gengo/internal.(*Dumper).ValueLit|reflect-mapkeys": {"the keys are first rendered by a printer whose namer keeps nothing and without options (so no callback runs), collected, and put in the order of that rendering before the real rendering starts; keys whose stateless rendering ties have the same types and values, render identically with the real namer and register the same packages in the same order", sideMapKeysPreordered},
-	"pkg/gengo/snippet.Args.Args$1|map-range": {"the iterator yields the bindings in map order; its only consumer stores them keyed by name", sideArgsKeyedOnly},
-	"pkg/gengo/snippet.Args.Args|maps-iter":   {"maps.All(args) yields the bindings in map order; its only consumer stores them keyed by name", sideArgsKeyedOnly},
+	"pkg/gengo/snippet.Args.Args$1|map-range":               {"the iterator yields the bindings in map order; its only consumer stores them keyed by name", sideArgsKeyedOnly},
+	"pkg/gengo/snippet.Args.Args|maps-iter":                 {"maps.All(args) yields the bindings in map order; its only consumer stores them keyed by name", sideArgsKeyedOnly},
 	"pkg/types.(*Universe).LocateInPackage|map-range": {"first match on SourceDir(): a find-unique over packages (one package per directory); not on any output path", func(p *core.Program, f *core.Func, os OrderSource) (bool, string) {
 		obj := f.Root().Obj()
 		for _, cs := range allCalls(p) {
@@ -772,36 +772,36 @@ func c04R2(p *core.Program, r *core.Report) {
 
 // sideArgsKeyedOnly: every consumer of TArg.Args() only stores the bindings keyed by their name.
 var sideArgsKeyedOnly = func(p *core.Program, f *core.Func, os OrderSource) (bool, string) {
-		// every range over a.Args() in scope is a keyed store of (name, snippet)
-		iface := "(" + core.G("pkg/gengo/snippet.TArg") + ").Args"
-		n := 0
-		for _, cs := range callersOf(p, iface, core.G("pkg/gengo/snippet.Args")+".Args") {
-			n++
-			info := cs.In.Info()
-			path := core.PathTo(cs.In.Body, cs.Call)
-			okSite := false
-			// maps.Insert(dst, a.Args()) is the keyed store of every pair
-			for k := len(path) - 1; k >= 0; k-- {
-				if pc, ok := path[k].(*ast.CallExpr); ok && pc != cs.Call && core.CalleeName(info, pc) == "maps.Insert" && len(pc.Args) == 2 && ast.Unparen(pc.Args[1]) == ast.Expr(cs.Call) {
-					okSite = true
-				}
-			}
-			for k := len(path) - 1; k >= 0; k-- {
-				if rs, ok := path[k].(*ast.RangeStmt); ok && rs.X == ast.Expr(cs.Call) {
-					sh := rangeBodyShape(info, rs)
-					inj, _ := keyedStoresInjective(info, rs)
-					okSite = sh.KeyedOnly && len(sh.Collected) == 0 && inj
-				}
-			}
-			if !okSite {
-				return false, "a consumer of TArg.Args() in " + cs.In.QName() + " does more than a keyed store"
+	// every range over a.Args() in scope is a keyed store of (name, snippet)
+	iface := "(" + core.G("pkg/gengo/snippet.TArg") + ").Args"
+	n := 0
+	for _, cs := range callersOf(p, iface, core.G("pkg/gengo/snippet.Args")+".Args") {
+		n++
+		info := cs.In.Info()
+		path := core.PathTo(cs.In.Body, cs.Call)
+		okSite := false
+		// maps.Insert(dst, a.Args()) is the keyed store of every pair
+		for k := len(path) - 1; k >= 0; k-- {
+			if pc, ok := path[k].(*ast.CallExpr); ok && pc != cs.Call && core.CalleeName(info, pc) == "maps.Insert" && len(pc.Args) == 2 && ast.Unparen(pc.Args[1]) == ast.Expr(cs.Call) {
+				okSite = true
 			}
 		}
-		if n == 0 {
-			return false, "no consumer of TArg.Args() found"
+		for k := len(path) - 1; k >= 0; k-- {
+			if rs, ok := path[k].(*ast.RangeStmt); ok && rs.X == ast.Expr(cs.Call) {
+				sh := rangeBodyShape(info, rs)
+				inj, _ := keyedStoresInjective(info, rs)
+				okSite = sh.KeyedOnly && len(sh.Collected) == 0 && inj
+			}
 		}
-		return true, fmt.Sprintf("%d consumer(s), all keyed stores", n)
+		if !okSite {
+			return false, "a consumer of TArg.Args() in " + cs.In.QName() + " does more than a keyed store"
+		}
 	}
+	if n == 0 {
+		return false, "no consumer of TArg.Args() found"
+	}
+	return true, fmt.Sprintf("%d consumer(s), all keyed stores", n)
+}
 
 // sideMapKeysPreordered: the side condition of the reviewed exception for the value printer's map arm.
 //   - the loop over rv.MapKeys() only collects into one slice;
